@@ -398,6 +398,11 @@ def witness_outcome(run, shoot, finding, check=None):
     if "common" in w:
         files["common/common.go"] = w["common"]
     l2.write_files(mod, files)
+    for key, sub in (("pre", "dest"), ("pre_src", "src")):
+        if key in w:      # `shoot new -getset` on the shoot-new side first
+            r0 = l2.run_shoot(shoot, mod / sub, w[key], timeout=60)
+            if r0["rc"] != 0 or r0["panicked"]:
+                return "other: shoot %s failed: %s" % (" ".join(w[key]), r0["err"][-300:])
     r = l2.run_shoot(shoot, mod / "src", w.get("args", ["map", "-path=../dest", "-type=T"]), timeout=60)
     if check:
         return check(r, mod)
@@ -416,4 +421,48 @@ def witness_outcome(run, shoot, finding, check=None):
     if ok:
         return "correct"
     txt = " ".join(" ".join(v) for v in errs.values())
-    return "buggy" if "undefined" in txt else "other: " + txt[:300]
+    return "buggy" if ("undefined" in txt or "cannot use" in txt or "cannot convert" in txt) else "other: " + txt[:300]
+
+
+STATE_LEAK_SRC = """package src
+
+type Order2 struct {
+	ID   string
+	Name string
+}
+
+type Order struct {
+	ID   string
+	Name string
+}
+"""
+STATE_LEAK_DEST = """package dest
+
+type Order2 struct {
+	id   string
+	name string
+}
+
+type Order struct {
+	ID   string
+	Name string
+}
+"""
+
+
+def state_leak_outcome(run, shoot, finding):
+    """K_map_state_leak (fixed): -type=Order2,Order must not reuse Order2's constructor/accessors for plain Order"""
+    mod = l2.make_module(run, "kf_" + finding["id"])
+    (mod / "go.mod").write_text((mod / "go.mod").read_text().replace("module kf_" + finding["id"], "module vmod"))
+    l2.write_files(mod, {"src/src.go": STATE_LEAK_SRC, "dest/dest.go": STATE_LEAK_DEST})
+    r0 = l2.run_shoot(shoot, mod / "dest", ["new", "-getset", "-type=Order2"], timeout=60)
+    if r0["rc"] != 0:
+        return "other: shoot new failed: " + r0["err"][-300:]
+    r = l2.run_shoot(shoot, mod / "src", ["map", "-path=../dest", "-type=Order2,Order"], timeout=60)
+    if r["rc"] != 0 or r["panicked"]:
+        return "other: shoot map failed: " + r["err"][-300:]
+    txt = (mod / "src" / "src.shootmap.order.go").read_text()
+    if "NewOrder" in txt or "SetId" in txt:
+        return "buggy"
+    ok, errs = l2.go_build(mod, ("./src",))
+    return "correct" if ok else "other: " + str(errs)[:300]
